@@ -6,6 +6,7 @@ func init() {
 	register(&Check{ID: "C17", Level: "fault_enumeration", Rule: c17RuleText + " | certificate matrix (upstream kind x server certificate x tls options) and client-certificate matrix through the real binary, enumerated completely; the certificate matrix runs as directed per-server sequences (upstreams that differ only in their trust settings take turns on one server) followed by two parallel passes",
 		Run: func(c *Ctx) {
 			c17DialMatrix(c)
+			c17Fallback(c)
 			c17Certs(c)
 		}})
 }
